@@ -1,16 +1,319 @@
 /-
-  C14 — pub/sub delivers once per matching subscription (work in progress: witnesses first).
+  C14 — pub/sub delivers exactly once per matching subscription; acknowledgement counts;
+  nothing after unsubscribe / disconnect; publish order; the glob matcher.
+
+  Property theorems only; helper lemmas live in FerrousSpec/Proofs/PubSub*.lean.
+  Model: FerrousSpec/Model/PubSub.lean — `Code`: the three maps of `PubSubManager`
+  (src/pubsub.rs) with subscribe / psubscribe / unsubscribe / punsubscribe /
+  unsubscribe_all / publish (switch `dedup`: `true` = the `seen_connections`
+  de-duplication of the tree as pinned, `false` = after the proposed fix) and the matcher
+  `pattern_matches`; `Spec`: the flat set of subscriptions held, one delivery per matching
+  subscription, the meaning of `* ? \x`.  All history theorems quantify over every list of
+  operations from the empty manager.
+  Tie to the code: lib/c14.py reads the switch `dedup` off src/pubsub.rs and executes the
+  same histories on the real `PubSubManager` / `pattern_matches` (in-process) and on the real
+  server over TCP.
 -/
-import FerrousSpec.Model.PubSub
+import FerrousSpec.Proofs.PubSubRaw
 namespace Ferrous.C14
 open Ferrous Ferrous.PubSub
 
-/-- Witness: with the `seen_connections` de-duplication a client subscribed to `news` and to the
-    pattern `n*` gets ONE frame and PUBLISH answers 1, where the property prescribes two deliveries. -/
+/-! ### (1) The three maps stay mutual inverses -/
+
+/-- After every history: a connection is listed under a channel (pattern) iff that channel
+    (pattern) is listed under the connection; every key occurs once in each map; no channel
+    or pattern is mapped to an empty or duplicated set of connections; no connection's lists
+    contain duplicates.  (`channel_subs`, `pattern_subs`, `conn_subs` of `PubSubManager`.) -/
+theorem maps_agree (ops : List Op) :
+    let st := Code.after {} ops
+    (∀ ch c, (∃ cs, (ch, cs) ∈ st.channels ∧ c ∈ cs) ↔ (∃ i, (c, i) ∈ st.subs ∧ ch ∈ i.1)) ∧
+    (∀ p c, (∃ cs, (p, cs) ∈ st.patterns ∧ c ∈ cs) ↔ (∃ i, (c, i) ∈ st.subs ∧ p ∈ i.2)) ∧
+    (st.channels.map (·.1)).Nodup ∧ (st.patterns.map (·.1)).Nodup ∧ (st.subs.map (·.1)).Nodup ∧
+    (∀ e ∈ st.channels, e.2 ≠ [] ∧ e.2.Nodup) ∧ (∀ e ∈ st.patterns, e.2 ≠ [] ∧ e.2.Nodup) ∧
+    (∀ e ∈ st.subs, e.2.1.Nodup ∧ e.2.2.Nodup) := by
+  intro st
+  obtain ⟨h1, h2, h3, h4, h5⟩ := (Inv.init.after ops).raw
+  exact ⟨h1 .chan, h1 .pat, h2 .chan, h2 .pat, h3, h4 .chan, h4 .pat, fun e he => ⟨h5 .chan e he, h5 .pat e he⟩⟩
+
+/-- For histories a client can produce (SUBSCRIBE / PSUBSCRIBE carry at least one name — the
+    handlers' arity check) no connection keeps an entry without subscriptions, i.e.
+    `is_subscribed` is true exactly for connections that hold something. -/
+theorem no_empty_entries (ops : List Op) (hops : ∀ op ∈ ops, Code.clientOp op = true) :
+    ∀ e ∈ (Code.after {} ops).subs, e.2 ≠ ([], []) := by
+  intro e he
+  have hn : NoEmptyInfo (Code.after {} ops) :=
+    NoEmptyInfo.after (by intro c i h; cases h) ops hops
+  exact hn e.1 e.2 ((mem_iff_aget (Inv.init.after ops).keysSubs e.1 e.2).1 he)
+
+/-- Witness that the hypothesis is needed: `subscribe(conn, vec![])` through the library API
+    leaves an entry without subscriptions behind (`is_subscribed(1)` is then true). -/
+theorem empty_entry_after_empty_subscribe :
+    (Code.after {} [Op.subscribe 1 .chan []]).subs = [(1, ([], []))] := by decide
+
+/-! ### (2) Acknowledgements carry the remaining subscription count -/
+
+/-- The acknowledgements the code returns for any operation after any history are exactly the
+    spec's: one per name, each carrying the number of subscriptions (channels + patterns) the
+    client holds right after that name was processed (`spec_ack_is_count`) — except that the
+    code returns none at all for (P)UNSUBSCRIBE by a connection that holds nothing. -/
+theorem ack_count_correct (ops : List Op) (op : Op) :
+    (Code.apply (Code.after {} ops) op).2 =
+      if Code.silent (Code.after {} ops) op then [] else (Spec.apply (Spec.after [] ops) op).2 :=
+  ((Rel.init.after ops).next op).2
+
+/-- What the spec's acknowledgement count is: the size of the client's subscription set at that
+    moment. -/
+theorem spec_ack_is_count (k : Kind) (c : ConnId) (s : Spec.State) (x : Bytes) :
+    (Spec.sub1 k c s x).2.count = Spec.count (Spec.sub1 k c s x).1 c ∧
+    (Spec.unsub1 k c s x).2.count = Spec.count (Spec.unsub1 k c s x).1 c := ⟨rfl, rfl⟩
+
+/-- The per-connection map of the code represents the spec's set after every history: same
+    names, same order, for every connection and kind. -/
+theorem held_eq_spec (ops : List Op) (c : ConnId) :
+    (match aget (Code.after {} ops).subs c with
+      | some i => i
+      | none => ([], [])) =
+    (Spec.heldBy (Spec.after [] ops) c .chan, Spec.heldBy (Spec.after [] ops) c .pat) := by
+  have h := Rel.init.after ops
+  rw [h.heldEq, h.heldEq]
+  unfold held info
+  cases aget (Code.after {} ops).subs c <;> rfl
+
+/-! ### (3) PUBLISH: one delivery per matching subscription -/
+
+/-- FULL STATEMENT (holds for the code without the de-duplication, `dedup = false`): after
+    every history the receivers of a PUBLISH are, up to order, exactly one per subscription
+    (channel or pattern, of any connection) matching the channel, and the integer reply is
+    their number. -/
+theorem publish_eq_spec (ops : List Op) (ch : Bytes) :
+    (publish false (Code.after {} ops) ch).Perm (Spec.deliveries (Spec.after [] ops) ch) ∧
+    (publish false (Code.after {} ops) ch).length = (Spec.deliveries (Spec.after [] ops) ch).length := by
+  have h : (publish false (Code.after {} ops) ch).Perm (Spec.deliveries (Spec.after [] ops) ch) := by
+    simpa [publish] using candidates_perm_spec (Inv.init.after ops) (Rel.init.after ops) ch
+  exact ⟨h, h.length_eq⟩
+
+/-- PARTIAL (the tree as pinned, `dedup = true`): the same holds whenever no connection holds two
+    subscriptions matching the channel. -/
+theorem publish_eq_spec_partial (ops : List Op) (ch : Bytes)
+    (hno : ((Spec.deliveries (Spec.after [] ops) ch).map (·.1)).Nodup) :
+    (publish true (Code.after {} ops) ch).Perm (Spec.deliveries (Spec.after [] ops) ch) ∧
+    (publish true (Code.after {} ops) ch).length = (Spec.deliveries (Spec.after [] ops) ch).length := by
+  have h := publish_dedup_perm_spec (Inv.init.after ops) (Rel.init.after ops) ch hno
+  exact ⟨h, h.length_eq⟩
+
+/-- WITNESS: with the de-duplication a client subscribed to `news` and to the pattern `n*` gets
+    ONE frame and PUBLISH answers 1, where the property prescribes a `message` and a `pmessage`
+    (reply 2). -/
 theorem publish_dedup_fails :
     let ops := [Op.subscribe 1 .chan [[110, 101, 119, 115]], Op.subscribe 1 .pat [[110, 42]]]
     publish true (Code.after {} ops) [110, 101, 119, 115] = [(1, none)] ∧
     Spec.deliveries (Spec.after [] ops) [110, 101, 119, 115] = [(1, none), (1, some [110, 42])] := by
   decide
+
+/-- Hence the full statement is false for the tree as pinned. -/
+theorem publish_eq_spec_fails_with_dedup :
+    ¬ ∀ (ops : List Op) (ch : Bytes),
+      (publish true (Code.after {} ops) ch).length = (Spec.deliveries (Spec.after [] ops) ch).length := by
+  intro h
+  have := h [Op.subscribe 1 .chan [[110, 101, 119, 115]], Op.subscribe 1 .pat [[110, 42]]] [110, 101, 119, 115]
+  rw [publish_dedup_fails.1, publish_dedup_fails.2] at this
+  cases this
+
+/-- What the pinned code does instead, exactly: every connection holding at least one matching
+    subscription receives exactly one frame (and nobody else anything). -/
+theorem publish_dedup_one_per_connection (ops : List Op) (ch : Bytes) :
+    ((publish true (Code.after {} ops) ch).map (·.1)).Nodup ∧
+    ∀ c, c ∈ (publish true (Code.after {} ops) ch).map (·.1) ↔
+         c ∈ (Spec.deliveries (Spec.after [] ops) ch).map (·.1) := by
+  refine ⟨by simpa [publish] using nodup_conns_dedupGo [] _, ?_⟩
+  intro c
+  have hp := candidates_perm_spec (Inv.init.after ops) (Rel.init.after ops) ch
+  simp only [publish, if_true, conns_dedupGo]
+  rw [(hp.map (·.1)).mem_iff]
+  simp
+
+/-- "…and to nobody else", both variants: whoever receives a frame holds, at that moment, the
+    subscription the frame names, and it matches the channel. -/
+theorem delivered_only_to_subscribers (dedup : Bool) (ops : List Op) (ch : Bytes) (c : ConnId) (o : Option Bytes)
+    (h : (c, o) ∈ publish dedup (Code.after {} ops) ch) :
+    match o with
+    | none => (⟨c, .chan, ch⟩ : Spec.Sub) ∈ Spec.after [] ops
+    | some p => (⟨c, .pat, p⟩ : Spec.Sub) ∈ Spec.after [] ops ∧ Spec.glob p ch = true := by
+  have hp := candidates_perm_spec (Inv.init.after ops) (Rel.init.after ops) ch
+  have hm := hp.mem_iff.1 (mem_publish h)
+  cases o with
+  | none => exact (Spec.mem_deliveries_none _ _ _).1 hm
+  | some p => exact (Spec.mem_deliveries_some _ _ _ _).1 hm
+
+/-! ### (4) Nothing after unsubscribing or disconnecting -/
+
+/-- After its disconnect (`unsubscribe_all`) a connection id receives no `message` / `pmessage`
+    frame, whatever the other clients do, until it subscribes again.  Both variants of publish. -/
+theorem nothing_after_disconnect (dedup : Bool) (ops1 ops2 : List Op) (c : ConnId)
+    (hops : ∀ op ∈ ops2, op.subscribesAs c = false) :
+    msgsOf (received (Code.log dedup {} (ops1 ++ Op.disconnect c :: ops2)) c) =
+    msgsOf (received (Code.log dedup {} ops1) c) := by
+  rw [Code.log_append, received_append, msgsOf_append]
+  suffices h : msgsOf (received (Code.log dedup (Code.after {} ops1) (Op.disconnect c :: ops2)) c) = [] by
+    rw [h, List.append_nil]
+  rw [msgs_eq_blocks]
+  simp only [Code.blocks]
+  rw [List.flatten_eq_nil_iff]
+  intro b hb
+  have hinv : Inv (Code.next (Code.after {} ops1) (Op.disconnect c)) := (Inv.init.after ops1).next _
+  cases hbe : b with
+  | nil => rfl
+  | cons e es =>
+    exfalso
+    subst hbe
+    have he : e ∈ e :: es := List.mem_cons_self
+    -- `e` is a frame of some block, hence a message on some channel `ch`, but `c` is quiet on every channel
+    have hmsg : ∃ ch, e.chan? = some ch := by
+      have : e ∈ (Code.blocks dedup (Code.next (Code.after {} ops1) (Op.disconnect c)) ops2 c).flatten :=
+        List.mem_flatten.2 ⟨_, hb, he⟩
+      rw [← msgs_eq_blocks] at this
+      exact chan_of_isMsg (isMsg_of_mem_msgsOf this)
+    obtain ⟨ch, hch⟩ := hmsg
+    have hq : quiet (Code.next (Code.after {} ops1) (Op.disconnect c)) c ch := by
+      have hh : ∀ k, held (Code.next (Code.after {} ops1) (Op.disconnect c)) c k = [] := by
+        intro k
+        simp only [Code.next, Code.apply]
+        rw [held_unsubscribeAll]
+        simp
+      exact ⟨by rw [hh]; simp, by rw [hh]; intro p hp; cases hp⟩
+    exact quiet_blocks dedup ops2 _ hinv hq hops _ hb e he hch
+
+/-- After UNSUBSCRIBE from `ch` (named, or without arguments) by a connection none of whose
+    patterns matches `ch`, no frame published on `ch` reaches it, whatever the other clients do,
+    until it subscribes again.  Both variants of publish. -/
+theorem nothing_after_unsubscribe (dedup : Bool) (ops1 ops2 : List Op) (c : ConnId) (ch : Bytes)
+    (xs : Option (List Bytes)) (hx : ∀ l, xs = some l → ch ∈ l)
+    (hpat : ∀ p ∈ Spec.heldBy (Spec.after [] ops1) c .pat, Spec.glob p ch = false)
+    (hops : ∀ op ∈ ops2, op.subscribesAs c = false) :
+    ∀ e ∈ received (Code.log dedup (Code.after {} (ops1 ++ [Op.unsubscribe c .chan xs])) ops2) c,
+      e.chan? ≠ some ch := by
+  intro e he hch
+  have hmsg : e.isMsg = true := by cases e <;> simp_all [Event.chan?, Event.isMsg]
+  have hm : e ∈ msgsOf (received (Code.log dedup (Code.after {} (ops1 ++ [Op.unsubscribe c .chan xs])) ops2) c) :=
+    List.mem_filter.2 ⟨he, hmsg⟩
+  rw [msgs_eq_blocks] at hm
+  obtain ⟨b, hb, heb⟩ := List.mem_flatten.1 hm
+  have hinv : Inv (Code.after {} (ops1 ++ [Op.unsubscribe c .chan xs])) := Inv.init.after _
+  have hrel := Rel.init.after (ops1 ++ [Op.unsubscribe c .chan xs])
+  have hrel1 := Rel.init.after ops1
+  -- the spec set after the UNSUBSCRIBE
+  have hspec : Spec.after [] (ops1 ++ [Op.unsubscribe c .chan xs]) =
+      (loop (Spec.unsub1 .chan c) (Spec.after [] ops1) (xs.getD (Spec.heldBy (Spec.after [] ops1) c .chan))).1 := by
+    simp [Spec.after, List.foldl_append, Spec.next, Spec.apply, Spec.unsubscribe]
+  -- a loop of removals only removes, and removes every listed name
+  have hloop : ∀ (l : List Bytes) (s : Spec.State),
+      (∀ y, y ∈ Spec.heldBy (loop (Spec.unsub1 .chan c) s l).1 c .chan → y ∈ Spec.heldBy s c .chan ∧ y ∉ l) ∧
+      (∀ y, y ∈ Spec.heldBy (loop (Spec.unsub1 .chan c) s l).1 c .pat → y ∈ Spec.heldBy s c .pat) := by
+    intro l
+    induction l with
+    | nil => intro s; exact ⟨fun y hy => ⟨hy, by simp⟩, fun y hy => hy⟩
+    | cons x l ih =>
+      intro s
+      obtain ⟨i1, i2⟩ := ih (Spec.unsub1 .chan c s x).1
+      constructor
+      · intro y hy
+        have := i1 y (by simpa [loop] using hy)
+        simp only [Spec.unsub1] at this
+        rw [Spec.heldBy_filter_ne] at this
+        simp only [and_self, if_true, mem_srem] at this
+        exact ⟨this.1.1, by simp only [List.mem_cons, not_or]; exact ⟨this.1.2, this.2⟩⟩
+      · intro y hy
+        have := i2 y (by simpa [loop] using hy)
+        simp only [Spec.unsub1] at this
+        rw [Spec.heldBy_filter_ne] at this
+        simpa using this
+  have hq : quiet (Code.after {} (ops1 ++ [Op.unsubscribe c .chan xs])) c ch := by
+    constructor
+    · rw [← hrel.heldEq, hspec]
+      intro hm
+      obtain ⟨h1, h2⟩ := (hloop _ _).1 ch hm
+      cases xs with
+      | none => exact h2 (by simpa using h1)
+      | some l => exact h2 (by simpa using hx l rfl)
+    · intro p hp
+      rw [← hrel.heldEq, hspec] at hp
+      rw [globBytes_eq_spec]
+      exact hpat p ((hloop _ _).2 p hp)
+  exact quiet_blocks dedup ops2 _ hinv hq hops b hb e heb hch
+
+/-! ### (5) Publish order, bytes intact -/
+
+/-- The `message` / `pmessage` frames in a connection's stream are the concatenation, in the
+    order of the history's PUBLISH operations, of one block per PUBLISH; a block consists of the
+    frames for that PUBLISH's receivers equal to the connection, each carrying the published
+    channel and payload (and the receiver's pattern) unchanged (`msgBlock`).  In particular a
+    stream only ever grows at its end (`Code.log_append`). -/
+theorem publish_order_preserved (dedup : Bool) (ops : List Op) (c : ConnId) :
+    msgsOf (received (Code.log dedup {} ops) c) = (Code.blocks dedup {} ops c).flatten :=
+  msgs_eq_blocks dedup {} ops c
+
+/-- The log of a longer history extends the log of the shorter one (nothing is inserted,
+    reordered or retracted), hence so does every connection's stream. -/
+theorem stream_append_only (dedup : Bool) (ops1 ops2 : List Op) (c : ConnId) :
+    received (Code.log dedup {} (ops1 ++ ops2)) c =
+      received (Code.log dedup {} ops1) c ++ received (Code.log dedup (Code.after {} ops1) ops2) c := by
+  rw [Code.log_append, received_append]
+
+/-- FULL STATEMENT (`dedup = false`): block by block, a connection receives — up to the order of
+    frames within one PUBLISH — exactly one frame per subscription it holds that matches. -/
+theorem stream_eq_spec (ops : List Op) (c : ConnId) :
+    BlocksPerm (Code.blocks false {} ops c) (Spec.blocks [] ops c) :=
+  blocks_perm_spec Inv.init Rel.init ops c
+
+/-- PARTIAL (`dedup = true`, the tree as pinned): the same for histories in which no connection
+    ever holds two subscriptions matching a published channel. -/
+theorem stream_eq_spec_partial (ops : List Op) (c : ConnId) (hno : Spec.neverOverlap [] ops) :
+    BlocksPerm (Code.blocks true {} ops c) (Spec.blocks [] ops c) :=
+  blocks_dedup_perm_spec Inv.init Rel.init ops c hno
+
+/-- WITNESS for the streams: the subscriber of `news` + `n*` reads one frame where two are prescribed. -/
+theorem stream_dedup_fails :
+    let ops := [Op.subscribe 1 .chan [[110, 101, 119, 115]], Op.subscribe 1 .pat [[110, 42]], Op.publish 2 [110, 101, 119, 115] [120]]
+    Code.blocks true {} ops 1 = [[.message [110, 101, 119, 115] [120]]] ∧
+    Spec.blocks [] ops 1 = [[.message [110, 101, 119, 115] [120], .pmessage [110, 42] [110, 101, 119, 115] [120]]] := by
+  decide
+
+/-! ### (6) The glob matcher -/
+
+/-- `pattern_matches` (the star-backtracking loop of src/pubsub.rs, all patterns, all texts,
+    any number of `*`) computes the declarative meaning of the pattern. -/
+theorem glob_correct (p s : Bytes) : globBytes p s = Spec.glob p s := globBytes_eq_spec p s
+
+/-- …which is the relation generated by: `*` any run of bytes, `?` one byte, `\x` the byte `x`,
+    a final `\` and every other byte itself. -/
+theorem glob_correct_rel (p s : Bytes) : globBytes p s = true ↔ Spec.Glob p s := by
+  rw [globBytes_eq_spec]; exact glob_iff_Glob p s
+
+/-- The loop's iteration budget in the model is never the reason for an answer. -/
+theorem glob_fuel_irrelevant (p s : Bytes) (fuel : Nat) (h : globFuel p s ≤ fuel) :
+    globLoop fuel p s none = globBytes p s := globLoop_fuel_irrelevant p s fuel h
+
+/-! ### Non-vacuity: concrete non-trivial instances -/
+
+/-- a history with overlapping channel/pattern subscriptions, named and blanket unsubscribes, a disconnect -/
+def exampleOps : List Op :=
+  [.subscribe 1 .chan [[110, 101, 119, 115], [97]], .subscribe 2 .pat [[110, 42], [42]], .subscribe 1 .pat [[110, 63, 119, 115]],
+   .publish 3 [110, 101, 119, 115] [0, 255, 13, 10], .unsubscribe 1 .chan (some [[110, 101, 119, 115]]), .unsubscribe 2 .pat none,
+   .publish 3 [110, 101, 119, 115] [1], .disconnect 1, .publish 3 [110, 101, 119, 115] [2]]
+
+example : Code.log false {} exampleOps = Spec.log [] exampleOps := by decide
+example : ∀ op ∈ exampleOps, Code.clientOp op = true := by decide
+example : Spec.deliveries (Spec.after [] (exampleOps.take 3)) [110, 101, 119, 115] =
+    [(1, none), (2, some [110, 42]), (2, some [42]), (1, some [110, 63, 119, 115])] := by decide
+-- hypothesis of `publish_eq_spec_partial` / `stream_eq_spec_partial` is satisfiable with two receivers:
+example : ((Spec.deliveries (Spec.after [] [.subscribe 1 .chan [[97]], .subscribe 2 .pat [[42]]]) [97]).map (·.1)).Nodup := by decide
+example : Spec.neverOverlap [] [.subscribe 1 .chan [[97]], .subscribe 2 .pat [[42]], .publish 3 [97] [1]] := by
+  simp only [Spec.neverOverlap]; decide
+-- hypotheses of `nothing_after_unsubscribe`:
+example : ∀ p ∈ Spec.heldBy (Spec.after [] [.subscribe 1 .chan [[97]], .subscribe 1 .pat [[98, 42]]]) 1 .pat, Spec.glob p [97] = false := by decide
+example : ∀ op ∈ [Op.subscribe 2 .chan [[97]], Op.publish 2 [97] [1]], op.subscribesAs 1 = false := by decide
+-- the matcher on a pattern with two stars, an escape and a `?`:
+example : globBytes [42, 97, 42, 92, 42, 63] [120, 97, 121, 97, 42, 122] = true := by decide
+example : Spec.Glob [110, 42] [110, 101] := .lit 110 (by decide) (by decide) (by decide) (.starEat 101 (.starSkip .nil))
 
 end Ferrous.C14
